@@ -1,4 +1,5 @@
 mod bdd_rec;
+mod vec_replay;
 mod sat_rec;
 mod sdd_rec;
 mod tables;
@@ -16,6 +17,8 @@ fn main() {
         (Some("record"), Some("sat")) => sat_rec::record_sat(&args),
         (Some("record"), Some("topdown")) => sat_rec::record_topdown(&args),
         (Some("record"), Some("table")) => tables::record_table(&args),
+        (Some("replay"), Some("bddvec")) => vec_replay::replay_bddvec(&args),
+        (Some("replay"), Some("sddvec")) => vec_replay::replay_sddvec(&args),
         (Some("replay"), Some("table")) => tables::replay_table(&args),
         (Some("record"), Some("lru")) => tables::record_lru(&args),
         (Some("replay"), Some("lru")) => tables::replay_lru(&args),
